@@ -32,11 +32,13 @@ DEPENDS = {
     'C18': ['C14', 'C15'],
     'C19': ['C15'],
     'C13': [],
+    'C20': ['C19F'],
 }
 
 
 def run_dependencies(chk) -> None:
     from .index import AnalysisError
+    pending = []
     for dep in DEPENDS.get(chk.pid, []):
         shadow = Check(dep[:3], chk.tier, chk.repo, chk.seed)
         rule = f'{chk.pid}.D'
@@ -45,12 +47,16 @@ def run_dependencies(chk) -> None:
         except AnalysisError as e:
             chk.note(f'dependency {dep} could not be evaluated completely ({e.rule}: {e.why[:160]}); see the {dep} check')
             if not shadow.findings:
+                # what this property rests on is not decided on this tree: no silent pass (reported after the other dependencies)
+                pending.append(AnalysisError(f'{chk.pid}.D', f'{dep} ({e.anchor})', f'the statement of {chk.pid} rests on {dep}, which could not be evaluated: {e.rule}: {e.why[:200]}'))
                 continue
         chk.evals(shadow.evaluations)
         for f in shadow.findings:
             chk.fail(rule, f.where, f.qual, f'[{f.rule}] {f.construct}', f'(the statement of {chk.pid} rests on {dep}) {f.reason}', **f.extra)
         if not shadow.findings:
             chk.ok(rule, f'rules of {dep}', f'{dep}: {shadow.discharged} obligations of the property {chk.pid} rests on are discharged')
+    if pending and not chk.findings:
+        raise pending[0]
 
 
 def run_property(pid: str, tier: str, repo_root: str, seed: int, only_key=None) -> int:
